@@ -202,7 +202,7 @@ func (d *c35Drv) drivers() map[string]func() func() {
 		},
 		"fsn:container.putNamed": func() func() {
 			c := goodCnr
-			c.SysAttr = "allowed"
+			c.Attrs = []string{"allowed", "allowed"}                          // NAME and ZONE
 			cnr := mkContainer(rand.New(rand.NewSource(2)), c, d.owner, true) // variant with the domain attributes
 			cnr.SetAttribute("Tag", fmt.Sprint(d.r.Int63()))
 			b := cnr.Marshal()
